@@ -12,6 +12,9 @@ CLAIMS = {
  "C18": ("Round-trip oracles in both directions over every exported wire codec: every length around each size bound is enumerated, rapid draws shaped and random contents and full-range messages, thorough adds native fuzzing. Exploration: a failing input is a counterexample, a pass is not a proof.",
          "An independent hand encoder for winbox chunking and encoding/binary for field layouts are trusted; field equality ignores non-serialised bookkeeping (digest pointers).",
          "property-based testing (rapid) + enumeration of lengths + fuzzing; round-trip oracle"),
+ "C06": ("Metamorphic search over the prefix lattice of generated streams: every prefix of every stream is evaluated through the public matching path; oracles are zero network reads, verdict repeatability, an unchanged stream for later readers, monotonicity of 'no', and 'whole message matches => no proper prefix is rejected'. Exhaustive over split points per stream, sampled over streams.",
+         "A fresh Connection preloaded with the prefix (overlay export shim) stands for 'the bytes received so far'; the scripted underlying conn counts reads.",
+         "property-based testing (rapid), metamorphic relation over all prefixes of each generated stream"),
 }
 NOT_YET = "check not built yet in this session (planned, see DESIGN.md); not claimed until it is"
 
